@@ -378,6 +378,10 @@ func (e *Engine) callOpaque(st *State, instr ssa.Instruction, call *ssa.CallComm
 			if fn0 := st.frames[0].fn; fn0.Pkg != nil {
 				env.pkg = fn0.Pkg.Pkg
 			}
+			// the parameters of the function under verification may be named
+			for n, v := range st.frames[0].params {
+				env.names[n] = v
+			}
 			for i, a := range args {
 				env.names[fmt.Sprintf("a%d", i)] = a
 			}
